@@ -106,6 +106,12 @@ CHECKS["C08"] = dict(
     text="Scenarios: ROA added (warm caches; cold caches right after a restart; right after another command without any read in between), ROA removed, ASPA set, router key added, child entitlement shrunk, entitlement grown on cold caches, key roll initiated, key roll activated, key roll initiated under a rolling parent, re-publication a day later, identity key renewed (quick: the first six). For every mutation index and both cut kinds: every entity loads; the repository files are consistent; an acknowledged command is not lost; the running instance holds in memory exactly what a fresh instance replays from storage; after background tasks, re-submission of the interrupted request and settling the tree is relying-party valid and the observable state equals that of the fault-free run.",
     note="Torn writes inside one mutation are not modelled (values are written to a temporary file and renamed). Equality with the twin is on an observable projection (configuration, entitlements, key-state kinds, relying-party payloads); fresh keys, serials and class names are not compared. When the daemon gives up on purpose (task queue cannot be written) the Fail-mode cut is continued as a restart. Two defects found here are recorded as known findings (listener/command store not atomic; RRDP update task not queued), one was repaired.")
 
+CHECKS["C07"] = dict(
+    engine="E2", category="model_checking", design="4/C07",
+    technique="stateless exploration of thread interleavings of the real runtime under a controlled scheduler (engine E2): worker threads park at every lock hand-off krill reports (hook H2, both storage back-ends); depth-first search over the choice points with a preemption bound, every schedule re-executed from the same initial state in its own process; plus probes that resume a thread whose lock is reported held, so that the real file / rwlocks are exercised",
+    text="Harnesses: two writers racing to add the same ROA plus a reader; accepted, rejected and effect-less commands mixed plus a reader; commands on a CA and on its parent; disk and memory back-end. For every schedule with at most 1 (quick) / 2 (thorough) preemptions: every recorded command has the next consecutive version; the command files equal what the history API lists (with actor); acknowledged commands = recorded successes, rejected = recorded with the error, commands without effect leave no trace; of two racing identical changes exactly one wins; every read equals the state after a prefix of the recorded order and versions never go back; the final state is the replay of the recorded commands; a fresh instance loads the same state; no deadlock.",
+    note="Scheduling points are the reported lock hand-offs only; a command's whole load-process-store-cache sequence runs inside one such lock. Unreported std locks are handled by a 400 ms watchdog (a thread that reaches no point is treated as blocked), which makes the probe executions timing-dependent; the trusted explorations are deterministic (a replayed prefix that does not fit is a machinery error). Replay: kcheck C07 --replay <file>.")
+
 CHECKS["C10"] = dict(
     engine="E1", category="model_checking", design="4/C10",
     technique="explicit-state exploration (fork-checkpointed DFS) of publication-delta sequences from several publishers on the real RepositoryManager against a per-publisher reference map",
